@@ -47,6 +47,7 @@ BAD_ARGS = [[], ["--bogus"], ["--until", "x", "cid.csv"], ["--until", "-2", "cid
             # a file name that is the empty string: unusable (2) or, read as "a file that cannot be read", 3 - never 4
             ["cid.csv", ""], [""], ["", "data.csv"], ["cid.csv", "data.csv", ""],
             # an unusable option value is unusable whatever the CID is like
+            ["--no-such-option", "cid.csv", "data.csv"], ["cid.csv", "data.csv", "-x"],
             ["--until", "-2", "rejected-cid.csv"], ["--until", "-17", "missing-cid.csv"], ["--until=-2", "rejected-cid.csv", "data.csv"]]
 
 
